@@ -26,6 +26,22 @@ struct Shared {
 
 static SHARED: Mutex<Option<Arc<Shared>>> = Mutex::new(None);
 
+/// how many workers are currently parked at each point name (readable from worker code)
+static PARKED_AT: Mutex<Vec<(String, usize)>> = Mutex::new(Vec::new());
+
+pub fn parked_at(name: &str) -> usize {
+    PARKED_AT.lock().unwrap().iter().find(|(n, _)| n == name).map(|(_, c)| *c).unwrap_or(0)
+}
+
+fn parked_delta(name: &str, up: bool) {
+    let mut g = PARKED_AT.lock().unwrap();
+    if let Some(e) = g.iter_mut().find(|(n, _)| n == name) {
+        if up { e.1 += 1 } else { e.1 = e.1.saturating_sub(1) }
+    } else if up {
+        g.push((name.to_string(), 1));
+    }
+}
+
 pub struct Scheduler {
     from_workers: Receiver<(usize, Report)>,
     grant_tx: Vec<Sender<()>>,
@@ -39,6 +55,7 @@ fn point_cb(name: &str) {
     let Some(id) = WORKER.with(|w| w.get()) else { return };
     let shared = SHARED.lock().unwrap().clone();
     let Some(shared) = shared else { return };
+    parked_delta(name, true);
     let _ = shared.to_sched.send((id, Report::At(name.to_string())));
     // wait for the grant
     let rx = shared.grants[id].lock().unwrap().take();
@@ -46,6 +63,7 @@ fn point_cb(name: &str) {
         let _ = rx.recv();
         *shared.grants[id].lock().unwrap() = Some(rx);
     }
+    parked_delta(name, false);
 }
 
 /// worker-side: publish a note to the scheduler (does not park)
@@ -74,6 +92,7 @@ impl Scheduler {
             grants.push(Mutex::new(Some(rx)));
         }
         *SHARED.lock().unwrap() = Some(Arc::new(Shared { to_sched: to_sched.clone(), grants }));
+        PARKED_AT.lock().unwrap().clear();
         rip_kernel::verif::install(Some(Arc::new(point_cb)));
         let mut s = Scheduler {
             from_workers,
